@@ -36,6 +36,8 @@ type SchedCheck struct {
 	Assume     []string
 	SkipFaulty bool                                    // do not evaluate the oracle on cycles of cases with injected faults
 	Mutate     func(c *spec.Case, seed int64, idx int) // optional post-processing of the generated case
+	// PodGroupLag: every eighth case runs with a persistent scheduler cache whose PodGroup informer lags one cycle
+	PodGroupLag bool
 	// Gen, if set, may supply the case of an index from another generator (nil = the profile's generator)
 	Gen         func(seed int64, idx int, tier string) *spec.Case
 	Hooks       func(c *spec.Case, sink *[]run.Violation, st *oracle.Stats) sched.Hooks
@@ -158,6 +160,12 @@ func (s *SchedCheck) RunGenerated(c *spec.Case, env *run.Env) run.CaseResult {
 	// every fourth case keeps one scheduler cache (informers, status updater and whatever the scheduler keeps in
 	// memory between cycles) for all its cycles, like the real process; the others get a fresh cache per cycle
 	r.Persistent = c.Index%4 == 3
+	// half of those (checks that ask for it) with a PodGroup informer that lags one cycle behind (sched.Runner.PodGroupLag)
+	r.PodGroupLag = s.PodGroupLag && c.Index%8 == 7
+	if r.PodGroupLag {
+		stats.Inc("cases_with_lagging_podgroup_informer")
+		defer func() { stats.Add("podgroup_events_held_back", int(st.HeldPodGroupEvents())) }()
+	}
 	defer r.Close()
 	notSynced := 0
 	w := world.New(st, gen.NewRand(c.Seed, c.Index, 3), c.World)
